@@ -60,7 +60,14 @@ def _mut(t, fn):
     return r + (T.snap(t),)  # state after the failed call (must equal the state before it)
 
 
-def impl(c):
+def impl(c, objs=None):
+    """objs: optional dict that receives the real objects built for the call (receiver 'tier', 'other', 'ref')"""
+    objs = {} if objs is None else objs
+
+    def mk(key):
+        if key not in objs:
+            objs[key] = T.build(c[key])
+        return objs[key]
     op = c["op"]
     if op in ("mkitier", "mkptier"):
         from praatio.data_classes.interval_tier import IntervalTier
@@ -68,7 +75,7 @@ def impl(c):
         k = IntervalTier if op == "mkitier" else PointTier
         r = T.call(lambda: k(c["name"], [tuple(e) for e in c["es"]], c["lo"], c["hi"]))
         return ("ok", T.snap(r[1])) if r[0] == "ok" else r
-    t = T.build(c["tier"])
+    t = mk("tier")
     if op in ("icrop", "pcrop"):
         r = T.call(lambda: t.crop(c["a"], c["b"], c.get("mode", "lax"), c["rebase"]))
     elif op in ("ierase", "perase"):
@@ -80,19 +87,19 @@ def impl(c):
     elif op in ("ishift", "pshift"):
         r = T.call(lambda: t.editTimestamps(c["o"], c["report"]))
     elif op in ("iappend", "pappend"):
-        u = T.build(c["other"])
+        u = mk("other")
         r = T.call(lambda: t.appendTier(u))
     elif op in ("iunion", "punion"):
-        u = T.build(c["other"])
+        u = mk("other")
         r = T.call(lambda: t.union(u))
     elif op == "idiff":
-        u = T.build(c["other"])
+        u = mk("other")
         r = T.call(lambda: t.difference(u))
     elif op == "iinter":
-        u = T.build(c["other"])
+        u = mk("other")
         r = T.call(lambda: t.intersection(u))
     elif op == "imergelabels":
-        u = T.build(c["other"])
+        u = mk("other")
         r = T.call(lambda: t.mergeLabels(u))
     elif op == "iinsert":
         return _mut(t, lambda: t.insertEntry(Interval(*c["entry"]), c["mode"], c.get("report", "silence")))
@@ -103,10 +110,10 @@ def impl(c):
     elif op == "pdelete":
         return _mut(t, lambda: t.deleteEntry(Point(*c["entry"])))
     elif op in ("idejitter", "pdejitter"):
-        ref = T.build(c["ref"])
+        ref = mk("ref")
         r = T.call(lambda: t.dejitter(ref, c["maxdiff"]))
     elif op == "imorph":
-        u = T.build(c["other"])
+        u = mk("other")
         f = c.get("filter")
         ff = None if f is None else (lambda lab: lab in f)
         r = T.call(lambda: t.morph(u, ff))
@@ -124,6 +131,7 @@ def impl(c):
     else:
         raise KeyError(op)
     if r[0] == "ok":
+        objs["result"] = r[1]
         return ("ok", T.snap(r[1]))
     return r
 
